@@ -14,6 +14,34 @@ from .report import AnalysisError
 
 BLANK = (" ", sgr.DEFAULT)
 
+
+def _width(ch):
+    """Columns a character occupies: 2 for East Asian wide / fullwidth, 0 for combining marks, 1 otherwise."""
+    import unicodedata
+    if not ch:
+        return 1
+    if unicodedata.combining(ch) or unicodedata.category(ch) in ("Mn", "Me", "Cf") and ch not in "\u00ad":
+        return 0
+    return 2 if unicodedata.east_asian_width(ch) in ("W", "F") else 1
+
+
+def cells_of_text(chars):
+    """[(unit, state)] a run of (character, state) pairs occupies on a row: a double-width character takes a second, empty cell,
+    a combining character joins the cell before it."""
+    out = []
+    for ch, st in chars:
+        w = _width(ch)
+        if w == 0 and out:
+            k = len(out) - 1
+            while k > 0 and out[k][0] == "":
+                k -= 1
+            out[k] = (out[k][0] + ch, out[k][1])
+        else:
+            out.append((ch, st))
+            if w == 2:
+                out.append(("", st))
+    return out
+
 _CSI = re.compile(r"\x1b\[(\??)([0-9;]*)([A-Za-z])")
 
 
@@ -75,6 +103,14 @@ class Screen:
             self.rows[r][c] = blank
             self.written.append((r, c))
 
+    def _unpair(self, r, c):
+        """Writing over one half of a double-width character blanks the other half."""
+        row = self.rows[r]
+        if row[c][0] == "" and c > 0 and _width(row[c - 1][0][:1] or " ") == 2:
+            row[c - 1] = (" ", row[c - 1][1])
+        elif c + 1 < self.width and row[c + 1][0] == "" and _width(row[c][0][:1] or " ") == 2:
+            row[c + 1] = (" ", row[c + 1][1])
+
     def feed(self, data):
         if not isinstance(data, str):
             raise AnalysisError("the window wrote a non-text value to the terminal: %r" % (data,))
@@ -125,12 +161,29 @@ class Screen:
                 if self.height == 0 or self.width == 0:
                     i += 1
                     continue
-                if self.pending:
+                cw = _width(ch)
+                if cw == 0:
+                    # a combining character joins the character in the cell before the cursor (the cell itself when a wrap is pending)
+                    c0 = self.c if self.pending else self.c - 1
+                    while c0 > 0 and self.rows[self.r][c0][0] == "":
+                        c0 -= 1
+                    if c0 >= 0:
+                        base, st = self.rows[self.r][c0]
+                        self.rows[self.r][c0] = (base + ch, st)
+                    i += 1
+                    continue
+                if self.pending or (cw == 2 and self.c == self.width - 1 and self.width > 1):
                     self.c = 0
                     self._linefeed()
                     self.pending = False
+                self._unpair(self.r, self.c)
                 self.rows[self.r][self.c] = (ch, self.state)
                 self.written.append((self.r, self.c))
+                if cw == 2 and self.c + 1 < self.width:
+                    self._unpair(self.r, self.c + 1)
+                    self.rows[self.r][self.c + 1] = ("", self.state)      # the second column of a double-width character
+                    self.written.append((self.r, self.c + 1))
+                    self.c += 1
                 if self.c == self.width - 1:
                     self.pending = True
                 else:
